@@ -416,6 +416,8 @@ func checkC04(r *core.Run) {
 		cts := p.Func("lib/chain.CheckTransactions")
 		r.Check(cts != nil && len(an.CallsTo(cts, true, "(*lib/btc.Tx).CheckTransaction")) > 0, "R-C04-money", "CheckTransaction-applied", "-", "CheckTransactions calls CheckTransaction for the block's transactions", "CheckTransaction is no longer applied to block transactions")
 	}
+	// the block's flags are those of its height also on the reorganisation / re-apply paths (shared with C06)
+	c06FlagsAfterHeight(r, p, "R-C04-scripts")
 	// subsidy schedule
 	if gr := p.Func("lib/btc.GetBlockReward"); gr != nil {
 		okS := false
